@@ -439,6 +439,9 @@ def run(tier, seed):
         obligations.append(validate_translator(prog, sizes, 4 if tier == "quick" else 16, seed))
     except rsparse.Unsupported as e:
         obligations.append({"engine": "smt", "harness": "s14_translator_validation", "verdict": "inconclusive", "message": str(e)})
+    # what the naming actor does with a new range: the services inside it are taken over (model-only replay: replay_native writes the range)
+    from . import c14actor
+    obligations.append(c14actor.run(tier, seed))
     # replay of counterexamples against the real code
     for ob in obligations:
         if ob.get("verdict") == "violation":
@@ -458,7 +461,7 @@ def replay_native(ob):
     if "live" not in ce:
         path = native.write_replay("C14", "c14", "model", [], {"engine": "smt", "mode": "model-only", "obligation": ob["harness"], "message": ob["message"], "model": ce})
         ob["replay_path"] = path
-        ob["replay"] = {"path": path, "outcome": "model-only", "message": "history of timer ticks and pings for InnerNodeManage (the native clock cannot be set)"}
+        ob["replay"] = {"path": path, "outcome": "model-only", "message": "history of timer ticks and pings for InnerNodeManage (the native clock cannot be set) / range handed to the naming actor"}
         return
     vals = [[1 if x else 0] for x in ce["live"]] + [[ce["hash"] % 60]]
     path = native.write_replay("C14", "c14", "k14_n%d" % ce["n"], vals, {"engine_s_model": ce})
